@@ -35,10 +35,12 @@ class InjectedFault(RuntimeError):
     pass
 
 
-def make_optimizer(spec):
+def make_optimizer(spec, snapshots=None):
     from glotaran.optimization.optimizer import Optimizer
 
     scheme = S.build_scheme(spec)
+    if snapshots is not None:
+        snapshots.append(snapshot_scheme(scheme))
     opt = Optimizer(scheme, verbose=False, raise_exception=True)
     labels, _, _, _ = scheme.parameters.get_label_value_and_bounds_arrays(exclude_non_vary=True)
     opt._free_parameter_labels = labels
@@ -86,7 +88,8 @@ def fresh_value(spec, k, key):
 
 
 def replay(spec, history, key):
-    _, opt = make_optimizer(spec)
+    snaps = []
+    scheme, opt = make_optimizer(spec, snaps)
     vs = []
     out = None
     for i, k in enumerate(history):
@@ -100,6 +103,9 @@ def replay(spec, history, key):
                 bad = int(np.sum(out != want)) if out.shape == want.shape else -1
                 vs.append(V("penalty-depends-on-evaluation-history", vector=k, differing_entries=bad,
                             max_abs=float(np.abs(out - want).max()) if bad > 0 else None))  # fmt: skip
+    changed = diff_snapshots(snaps[0], snapshot_scheme(scheme))
+    if changed:
+        vs.append(V("optimizer-changed-callers-scheme", changed=changed))
     dg = deep_digest(opt, exclude=EXCLUDE)
     return dg, vs, {"outcome": None if out is None else ("raised" if isinstance(out, str) else core.digest(out.tolist()))}
 
@@ -230,7 +236,8 @@ def run(run: core.Run):
     run.bounds = {"history_depth": depth, "vectors": N_VECTORS, "raising_vector": 1, "schemes_t_way": t}
     run.map("histories", [{"opts": o, "depth": depth, "seed": run.seed} for o in opts])
     ot = []
-    for o in F.t_way(1 if quick else 2, axes):
+    ot_axes = ["layout", "weights", "full", "link", "nds", "residual", "constraints", "penalty"]
+    for o in F.t_way(2, ot_axes) if quick else F.t_way(2, axes):
         for method in ("TrustRegionReflection", "Dogbox", "Levenberg-Marquardt"):
             for add_svd in (False, True):
                 ot.append({"opts": o, "method": method, "nfev": 4, "add_svd": add_svd, "seed": run.seed})
